@@ -23,6 +23,22 @@ CLAIMED = {
  "C07": ("Same traces: Formatter!Total on every Format event (outcome ok/parse_error only, ok iff the input parses by an independent parse, thread-CPU bound); "
          "worker crashes and timeouts are recorded as events, never tool errors.",
          "G->R->V: Formatter!Total on recorded Format events (panic/crash/timeout are data)", "5 C07"),
+ "C03": ("Catalogue of ~50 construct templates x every inter-token slot x comment kind (MC_Trivia; NTok cross-checked against the renderer), each formatted under every column width and "
+         "every collapse / call-parentheses value; TLC judges the comment census (own lexer) and the code-token normal form on every recorded Format event; plus the repository's test inputs.",
+         "G->R->V: Formatter!CensusKept + TokensKept on recorded traces of slot-enumerated comment placements", "5 C03"),
+ "C04": ("Exhaustive: every quoted body over the 18-symbol escape alphabet up to length 3 (and length 4 over the 7 escape-critical symbols) in both quote kinds, under 3 dialects, 4 quote styles x 2 line endings, "
+         "5 syntactic positions for short bodies; long-bracket bodies (levels 0-2) and numeric spellings per dialect. Strings!Decode evaluated by TLC on input and output symbols decides; "
+         "the design-level obligation RewriteSafe (transcribed regex tiling) is checked by TLC on every enumerated body; the Rust decoder is cross-checked against Strings!Decode on every case.",
+         "TLC model Strings (RewriteSafe invariant) + G->R->V with Strings!Decode", "5 C04"),
+ "C08": ("Statement sequences (MC_Block: skeletons x directives/semicolons/comments within a deviation budget, nested containers) replayed; the harness records per-statement byte facts matched by structural path; "
+         "TLC folds the block loop (Block!DisabledAt) to decide which statements had to be verbatim and judges VerbatimIgnored and, differentially against the directive-neutralised run, StillFormatted.",
+         "G->R->V: Block!IgnoreFails (fold of the block loop over recorded statement facts)", "5 C08"),
+ "C09": ("MC_Block with symbolic range markers (before/inside-first-token/after/last-byte/inside-last-token of every statement, 0, len, max) resolved to bytes by the harness; TLC classifies every statement "
+         "inside/boundary/outside (three-valued: code and README differ by one on the end bound) and judges verbatim-outside, equal-to-whole-file-inside, prefix and suffix.",
+         "G->R->V: Block!RangeFails on recorded statement facts", "5 C09"),
+ "C10": ("Trivia templates rendered with CRLF/mixed endings and space/mixed indentation (incl. block comments with mixed interior endings), formatted under every (line_endings, indent_type, indent_width) x widths; "
+         "per-line whitespace classes from the own lexer judged by Layout!WhitespaceFails in TLC; ignored text exempt.",
+         "G->R->V: Layout!WhitespaceFails on recorded per-line classes", "5 C10"),
 }
 checks = []
 for pid, (text, tech, ref) in sorted(CLAIMED.items()):
